@@ -158,6 +158,8 @@ def _f_s3_total_in_excl(case: dict[str, Any], v: dict[str, Any]) -> bool:
     if d["n_inverters"] < 2:
         return False
     st = d["stages"]
+    if "s3_err_by_set" not in st:
+        return None  # type: ignore[return-value]  (the split stage could not be hooked on this tree: undecidable)
     e = st.get("s3_err_by_set", {}).get(d["set_key"])
     if e is None:
         return False
